@@ -951,6 +951,12 @@ async fn faand(
     // Use SliceRandom::shuffle for unbiased random permutation
     let mut indices: Vec<usize> = (0..lprime).collect();
     indices.shuffle(shared_rand);
+    #[cfg(polytune_verif)]
+    crate::verif::probe(
+        "bucket_perm",
+        i,
+        &indices.iter().take(16).map(|x| *x as u128).collect::<Vec<_>>(),
+    );
 
     // Distribute shuffled indices into buckets using chunks
     // Since indices.len() == lprime == l * b, chunks_exact(b) gives us exactly l chunks of size b
